@@ -24,7 +24,7 @@ def heap_noise(seed: int):
 
 
 STAGES = ["detection_results_json", "protoclusters", "gene_annotations", "areas", "record_json", "genbank", "refined_hits",
-          "pfam_style_hits"]
+          "pfam_style_hits", "hmm_detection_module_json"]
 
 
 def run_case(case):
@@ -87,6 +87,21 @@ def run_case(case):
         result = remove_overlapping(hits, cutoffs, overlap_limit=10)
         kept.append((gene, [(h.identifier, h.protein_start, h.protein_end, h.score) for h in result]))
     out.append(digest(repr(kept)))
+    # the results of the detection module itself as they go into the results file: the real run_on_record with the
+    # ruleset and the profile search of this harness standing in for the shipped rule files and hmmsearch
+    import types
+    from antismash.detection import hmm_detection
+    ruleset = D.make_ruleset(scene, rules, 1)
+    originals = (hmm_detection.get_ruleset, hmm_detection.detect_protoclusters_and_signatures)
+    hmm_detection.get_ruleset = lambda _options: ruleset
+    hmm_detection.detect_protoclusters_and_signatures = D.detect_protoclusters_and_signatures
+    try:
+        options = types.SimpleNamespace(hmmdetection_strictness="relaxed", hmmdetection_limit_to_rules=[],
+                                        hmmdetection_limit_to_categories=[])
+        module_results = hmm_detection.run_on_record(D.make_record(scene, 1), None, options)
+        out.append(digest(json.dumps(module_results.to_json())))
+    finally:
+        hmm_detection.get_ruleset, hmm_detection.detect_protoclusters_and_signatures = originals
     orders = repr(list({h["p"] for hs in scene["hits"] for h in hs})) + repr(list(set(r["name"] for r in rules)))
     return out, digest(orders)
 
